@@ -19,7 +19,8 @@ def main():
     tier = 'thorough' if '--thorough' in sys.argv else 'quick'
     ids = args or sorted(d for d in os.listdir(os.path.join(HERE, 'seeded')) if os.path.isdir(os.path.join(HERE, 'seeded', d)))
     summary = []
-    for sid in ids:
+
+    def one(sid):
         d = os.path.join(HERE, 'seeded', sid)
         meta = json.load(open(os.path.join(d, 'meta.json')))
         props = meta.get('checks') or [meta['property']]
@@ -32,7 +33,7 @@ def main():
             r = run(['git', '-C', wt, 'apply', os.path.join(d, 'patch.diff')])
             if r.returncode != 0:
                 summary.append((sid, 'PATCH DOES NOT APPLY', r.stdout[-300:]))
-                continue
+                return
             res = {'id': sid, 'tier': tier, 'checks': {}}
             caught = False
             for p in props:
@@ -60,6 +61,18 @@ def main():
         finally:
             run(['git', '-C', REPO, 'worktree', 'remove', '--force', wt])
             shutil.rmtree(tmp, ignore_errors=True)
+    jobs = 1
+    for a_ in sys.argv[1:]:
+        if a_.startswith('--jobs='):
+            jobs = int(a_.split('=')[1])
+    if jobs > 1:
+        from concurrent.futures import ThreadPoolExecutor
+        with ThreadPoolExecutor(jobs) as ex:
+            list(ex.map(one, ids))
+    else:
+        for sid in ids:
+            one(sid)
+    summary.sort()
     for s in summary:
         print(*s)
 
